@@ -938,7 +938,28 @@ func (c *fctx) table07(id *ast.Ident, o types.Object) (string, bool) {
 	return name, true
 }
 
-func (t *Translator) consts07() string { return strings.Join(t.tableDefs07, "") }
+func (t *Translator) consts07() string {
+	pre := ""
+	if t.spec.InPlace {
+		pre = "\n(* helpers that the area does not list by name (pulled in as callees) are also in this database *)\nCreate HintDb go2v_aux.\n"
+	}
+	return pre + strings.Join(t.tableDefs07, "")
+}
+
+// auxHint07: a function that was pulled in as a callee and is not listed in TransSpec.Funcs — a helper the area's proof
+// scripts have no theorem about (an extracted helper, say) — is also put into the database go2v_aux: `autounfold with
+// go2v_aux` opens exactly those and leaves the calls of the listed functions folded.
+func (t *Translator) auxHint07(fi *funcInfo) string {
+	if !t.spec.InPlace || fi.frag != nil {
+		return ""
+	}
+	for _, f := range t.spec.Funcs {
+		if f == fi.goName {
+			return ""
+		}
+	}
+	return fmt.Sprintf("#[export] Hint Unfold %s : go2v_aux.\n", fi.name)
+}
 
 // ---- range with a value variable over a slice that the body writes in place ---------------------------------------------------
 
